@@ -115,6 +115,15 @@ theorem C14_suffix_only_on_clash (H : Name → Option Nat) (en : Entry) (rest : 
     (assignNames H (en :: rest) reservedStructNames).head? = some (en.path, expandName H en.trace en.elem) :=
   assignNames_head_plain H en rest _ h
 
+/-- over the whole naming table of a tree: a numbered name occurs only where the plain name is reserved or is the
+name given to another struct -/
+theorem C14_suffix_needed (H : Name → Option Nat) (t : Elem) :
+    ∀ p ∈ structNames H t, ∃ en ∈ walk .unsorted [] [] t, p.1 = en.path ∧
+      (p.2 = expandName H en.trace en.elem ∨
+        ((∃ i, 1 ≤ i ∧ p.2 = expandName H en.trace en.elem ++ dec i) ∧
+          (expandName H en.trace en.elem ∈ reservedStructNames ∨ expandName H en.trace en.elem ∈ (structNames H t).map (·.2)))) :=
+  assignNames_suffix_needed H _ _
+
 /-- and in general a struct gets its plain name whenever that name is neither reserved nor among the names
 handed out before it -/
 theorem C14_plain_if_free (H : Name → Option Nat) (en : Entry) (rest : List Entry) (used : List Name)
